@@ -175,7 +175,15 @@ impl GraphInline {
                 if !self.is_ref() && text.eq_ignore_ascii_case(url) {
                     format!("<{}>", url)
                 } else if self.is_ref() {
-                    format!("[{}]({}{})", text, url, options.refs_extension)
+                    let extension = if !options.refs_extension.is_empty()
+                        && url.ends_with(&options.refs_extension)
+                    {
+                        // the extension is already there, do not append it a second time
+                        ""
+                    } else {
+                        options.refs_extension.as_str()
+                    };
+                    format!("[{}]({}{})", text, url, extension)
                 } else {
                     format!("[{}]({})", text, url)
                 }
